@@ -45,8 +45,7 @@ def apply(c):
         }
     }
 }""")
-    for sig in ["            fn write_compressed_to<T: std::io::Write + std::io::Seek>(",
-                "            pub fn into_owned<'b>(self) -> RData<'b> {", "            pub fn into_owned<'b>(self) -> $t<'b> {"]:
+    for sig in ["            pub fn into_owned<'b>(self) -> RData<'b> {", "            pub fn into_owned<'b>(self) -> $t<'b> {"]:
         c.sub(rel, sig, "            #[verifier::external_body]\n" + sig, count=10)
     c.sub(rel, '            const TYPE_CODE: u16 = $c;', '            #[verifier::external_body]\n            const TYPE_CODE: u16 = $c;')
     c.sub(rel, '            fn from(value: u16) -> Self {', '            #[verifier::external_body]\n            fn from(value: u16) -> Self {')
